@@ -240,7 +240,9 @@ def completion_order_obligations(src_root):
                         name = n.func.attr if isinstance(n.func, ast.Attribute) else (n.func.id if isinstance(n.func, ast.Name) else None)
                         if name in ("ThreadPoolExecutor", "ProcessPoolExecutor", "Pool"):
                             pools += 1
-                        if name in COMPLETION_ORDER and not (isinstance(n.func, ast.Attribute) and isinstance(n.func.value, ast.Name) and n.func.value.id in ("time", "os")):
+                        recv = n.func.value.id if isinstance(n.func, ast.Attribute) and isinstance(n.func.value, ast.Name) else None
+                        is_wait_of_futures = name == "wait" and (isinstance(n.func, ast.Name) or recv in ("futures", "concurrent"))
+                        if (name in ("as_completed", "imap_unordered")) or is_wait_of_futures:
                             why = (f"`{name}` at {rel}:{n.lineno} yields results in completion order, which depends on thread scheduling; what is built from "
                                    "them (aggregates, report order) is then not a function of the project and the arguments")
                             out.append({"id": f"O/completion-order {rel} [{name}]", "func": rel, "kind": "completion-order", "label": None, "status": "refuted",
